@@ -312,7 +312,7 @@ func runC07(c *Ctx) {
 			c.evalDecode("c07_decode", "fixture:"+name, b, e, nil)
 		}
 	}
-	n := c.N(900, 20000)
+	n := c.N(900, 120000)
 	maxCert := c.Bound(1500, 6000)
 	for i := 0; i < n; i++ {
 		s, class := genWfStream(rng, 5, maxCert)
@@ -320,7 +320,7 @@ func runC07(c *Ctx) {
 	}
 	// databases built through the library's own operations, decodable types only
 	u := newSigUniverse(rng)
-	nh := c.N(150, 3000)
+	nh := c.N(150, 15000)
 	for i := 0; i < nh; i++ {
 		ops := u.genOps(rng, 2+rng.Intn(12), true)
 		o := c.Impl("db_history", "", strings.Join(ops, "&"))
@@ -367,7 +367,7 @@ func runC08(c *Ctx) {
 			c.evalDecode("c08_decode", "truncation", s[:k], "read", match("truncation"))
 		}
 	}
-	n := c.N(2000, 60000)
+	n := c.N(2000, 300000)
 	interesting := []uint32{0, 1, 15, 16, 17, 27, 28, 29, 44, 47, 48, 49, 76, 0x7fffffff, 0x80000000, 0xfffffff0, 0xffffffff}
 	for i := 0; i < n; i++ {
 		s, _ := genWfStream(rng, 3, 80)
